@@ -240,6 +240,7 @@ package packets
 // verif:def isMQIsdp(b []byte) bool = len(b) == 6 && b[0] == 'M' && b[1] == 'Q' && b[2] == 'I' && b[3] == 's' && b[4] == 'd' && b[5] == 'p'
 // verif:def isMQTT(b []byte) bool = len(b) == 4 && b[0] == 'M' && b[1] == 'Q' && b[2] == 'T' && b[3] == 'T'
 // verif:func packets.Packet.ConnectValidate
+//@ ensures the-only-answer-with-code-0-is-success: r0.Code == 0 ==> r0 == CodeSuccess
 //@ ensures C13-protocol-name-and-level-pair: r0.Code == 0 ==> (isMQIsdp(pk.Connect.ProtocolName) && pk.ProtocolVersion == 3) || (isMQTT(pk.Connect.ProtocolName) && (pk.ProtocolVersion == 4 || pk.ProtocolVersion == 5))
 //@ ensures C13-reserved-bit-zero: r0.Code == 0 ==> pk.ReservedBit == 0
 //@ ensures C13-user-and-password-flags-consistent: r0.Code == 0 ==> (!pk.Connect.UsernameFlag ==> len(pk.Connect.Username) == 0) && (pk.Connect.PasswordFlag <==> len(pk.Connect.Password) > 0) && len(pk.Connect.Password) <= 65535 && len(pk.Connect.Username) <= 65535
